@@ -145,6 +145,13 @@ pub fn directed() -> Vec<Program> {
     // 15. every shape of ID list: nullable list, required list of nullable IDs, required list of required IDs
     //     (a required list must be present: `default` belongs to the nullable one only)
     out.push(prog(vec![op("IdLists", vec![Sel::obj("me", vec![fld("ids"), fld("codes"), fld("keys"), Sel::obj("parent", vec![fld("codes")])])])], |_| {}));
+    // 16. a union selection in which a variant that is NOT the last one selects another abstract-typed field with
+    //     its own variants (the inner enum's variants are pushed between the outer ones), later variants with and
+    //     without data: payloads of every runtime type must still find their variant
+    out.push(prog(vec![op("NestedVariants", vec![Sel::obj("search", vec![t(),
+        on("Dog", vec![fld("barks"), Sel::obj("friends", vec![t(), on("Cat", vec![fld("lives")]), on("Dog", vec![fld("color")])]), Sel::obj("owner", vec![Sel::obj("best", vec![t(), on("Dog", vec![fld("barks")])])])]),
+        on("Person", vec![fld("name")]),
+        on("Cat", vec![fld("lives")])])])], |_| {}));
     // 11. the same schema, the extension's implementor only as a runtime type
     out.push(prog_on(zoo_extended(), vec![
         op("ExtendedPlain", vec![Sel::obj("named", vec![t(), fld("name")]), Sel::obj("me", vec![fld("age"), fld("name")])]),
